@@ -94,6 +94,9 @@ pub fn feat_for(args: &Args, rng: &mut Rng) -> Feat {
     if args.q("modulo") {
         f.modulo = false;
     }
+    if args.prop == "C12" && args.q("vm-leak-closure-alias") {
+        f.closure_alias = false;
+    }
     if args.prop == "C12" && args.q("vm-leak-closure-as-argument") {
         // no function-typed parameters: every call site would pass a closure
         f.hof = false;
